@@ -72,6 +72,11 @@ impl AlcCodec for AlcRS2m {
         let max_n = u16::from_be_bytes(fti[14..16].as_ref().try_into().unwrap());
         let max_number_of_parity_symbols = (max_n as u32).saturating_sub(b as u32);
 
+        // https://www.rfc-editor.org/rfc/rfc5510#section-4.2.3 : m is in {2..16}, 0 is the default value (8)
+        if m == 1 || m > 16 {
+            return Err(FluteError::new(format!("Wrong value of m={}", m)));
+        }
+
         let oti = oti::Oti {
             fec_encoding_id: oti::FECEncodingID::ReedSolomonGF2M,
             fec_instance_id: 0,
